@@ -217,6 +217,10 @@ func jsonSyntaxError() error {
 	return json.Unmarshal([]byte("{"), &v) // a *json.SyntaxError with a message
 }
 
+// FaultKindTransientWithData: the call that reaches At returns its bytes together with ErrFault1, the reader
+// then carries on with the rest of the data and fails for good (ErrFault2) where io.EOF would come.
+const FaultKindTransientWithData = 11
+
 // FaultReader delivers Data[:At] and then fails.
 // Kind 0: ErrFault1 on every call from At on.
 // Kind 1: ErrFault1 once, then ErrFault2 forever.
@@ -240,7 +244,7 @@ func (f *FaultReader) Read(p []byte) (int, error) {
 		return 0, nil
 	}
 	limit := f.At
-	if f.Kind == 3 && f.failed > 0 {
+	if (f.Kind == 3 || f.Kind == FaultKindTransientWithData) && f.failed > 0 {
 		limit = len(f.Data)
 	}
 	if f.pos >= limit {
@@ -249,10 +253,10 @@ func (f *FaultReader) Read(p []byte) (int, error) {
 		switch {
 		case f.Kind == 1 && f.failed > 1:
 			return 0, ErrFault2
-		case f.Kind == 3 && f.failed > 1:
+		case (f.Kind == 3 || f.Kind == FaultKindTransientWithData) && f.failed > 1:
 			return 0, ErrFault2
 		}
-		if f.Kind >= 4 {
+		if f.Kind >= 4 && f.Kind-4 < len(FaultIdentities) {
 			return 0, FaultIdentities[f.Kind-4]
 		}
 		return 0, ErrFault1
@@ -266,7 +270,7 @@ func (f *FaultReader) Read(p []byte) (int, error) {
 	}
 	copy(p, f.Data[f.pos:f.pos+n])
 	f.pos += n
-	if f.Kind == 2 && f.pos >= limit {
+	if (f.Kind == 2 || (f.Kind == FaultKindTransientWithData && f.failed == 0)) && f.pos >= limit {
 		f.Delivered = true
 		f.failed++
 		return n, ErrFault1
